@@ -173,7 +173,7 @@ func inLedgerPkg(w *World, fn *ssa.Function) bool {
 }
 
 func checkC06(w *World, r *Report) {
-	r.Explanation = "Structural clause of C06: with every program point of every module function reachable from an ABCI entry labelled T (consensus), F (CheckTx), Q (Query) or ⊤ (shared) — from the entry it is reached from, refined by dominating tests of the exec flag (TrxContext.Exec, StateDBWrapper.exec, bool parameters that receive it) — (X-1a) every consensus-overlay ledger method on a live ledger is called at a T point and (X-1b) every mempool-overlay method at an F point, including both arms of the `fn := L.Get; if exec { fn = L.GetFinality }` idiom which must name the same ledger; (X-1c) every argument bound to a parameter that receives the exec flag, and every store to TrxContext.Exec / StateDBWrapper.exec, is the flag itself or a constant that agrees with the context of the call; (X-2) no in-memory controller state is written at a point that is not T (the query's scratch StateDBWrapper excepted); (X-3) every success return of FinalityLedger.Commit resets the mempool overlay; (X-4) the live EVM state is touched only at T points; (X-5) inside the ledger package, mempool-overlay operations never change what the consensus overlay reads or what a commit writes, and a commit discards the mempool overlay (the abstract interpretation of C18 L-1). (X-8) no object reachable from a package-level variable of the module is changed in place (a store through it, a 256-bit / big-integer operation with it as destination) at a point that can run in a CheckTx or Query context: such an object is shared by every caller, block execution included. (X-7) the readers of the committed tree that block execution iterates with consult no overlay container (C18 L-2): the plain ledger's overlay is fed by CheckTx. (X-9) the validation step that every CheckTx runs changes nothing, also not through module functions it hands controller objects to (C05 A-2)."
+	r.Explanation = "Structural clause of C06: with every program point of every module function reachable from an ABCI entry labelled T (consensus), F (CheckTx), Q (Query) or ⊤ (shared) — from the entry it is reached from, refined by dominating tests of the exec flag (TrxContext.Exec, StateDBWrapper.exec, bool parameters that receive it) — (X-1a) every consensus-overlay ledger method on a live ledger is called at a T point and (X-1b) every mempool-overlay method at an F point, including both arms of the `fn := L.Get; if exec { fn = L.GetFinality }` idiom which must name the same ledger; (X-1c) every argument bound to a parameter that receives the exec flag, and every store to TrxContext.Exec / StateDBWrapper.exec, is the flag itself or a constant that agrees with the context of the call; (X-2) no in-memory controller state is written at a point that is not T (the query's scratch StateDBWrapper excepted); (X-3) every success return of FinalityLedger.Commit resets the mempool overlay; (X-4) the live EVM state is touched only at T points; (X-5) inside the ledger package, mempool-overlay operations never change what the consensus overlay reads or what a commit writes, and a commit discards the mempool overlay (the abstract interpretation of C18 L-1). (X-8) no object reachable from a package-level variable of the module is changed in place (a store through it, a 256-bit / big-integer operation with it as destination) at a point that can run in a CheckTx or Query context: such an object is shared by every caller, block execution included. (X-7) the readers of the committed tree that block execution iterates with consult no overlay container (C18 L-2): the plain ledger's overlay is fed by CheckTx. (X-9) the validation step that every CheckTx runs changes nothing, also not through module functions it hands controller objects to (C05 A-2). X-8 also covers assignments to module package-level variables, map updates on them and the mutators of a sync.Map kept in one."
 	r.NotCovered = "interleavings below ABCI-call granularity (Query takes no application mutex); equality of results as such; internals of iavl/go-ethereum caches."
 
 	x := NewExecCtx(w)
@@ -589,7 +589,22 @@ func x8(w *World, r *Report, x *ExecCtx) {
 					if d, ok := mutatesZ(y.Common()); ok {
 						dest, what = d, callName(y.Common())
 					}
+					// a concurrent container kept in a package-level variable (sync.Map)
+					if cal := y.Common().StaticCallee(); cal != nil && cal.Pkg != nil && cal.Pkg.Pkg.Path() == "sync" && cal.Signature.Recv() != nil && len(y.Common().Args) > 0 {
+						switch cal.Name() {
+						case "Store", "LoadOrStore", "LoadAndDelete", "Delete", "Swap", "CompareAndSwap", "CompareAndDelete":
+							if strings.Contains(cal.Signature.Recv().Type().String(), "sync.Map") {
+								dest, what = y.Common().Args[0], "sync.Map."+cal.Name()
+							}
+						}
+					}
+				case *ssa.MapUpdate:
+					dest, what = y.Map, "map-update"
 				case *ssa.Store:
+					// the package-level variable itself is assigned
+					if gv, isG := y.Addr.(*ssa.Global); isG {
+						dest, what = gv, "assign"
+					}
 					// a store through a pointer held by the package-level object (not into the local copy itself)
 					switch a := y.Addr.(type) {
 					case *ssa.FieldAddr:
